@@ -40,6 +40,7 @@ func c36renew(seed uint64, seconds int) {
 	stop := time.Now().Add(time.Duration(seconds) * time.Second)
 	var mu sync.Mutex
 	okOps, failOps, notifs := 0, 0, 0
+	refused, unexpectedOK := 0, 0
 	for ci := 0; ci < 3; ci++ {
 		c, err := plainClient(ctx, ts.URL, opcua.RequestTimeout(10*time.Second), opcua.AutoReconnect(false), opcua.Lifetime(2500*time.Millisecond))
 		if err != nil {
@@ -72,6 +73,36 @@ func c36renew(seed uint64, seconds int) {
 				}
 			}()
 		}
+		if ci == 1 {
+			// requests that FAIL inside the send path before a byte is written (context already cancelled; a Write
+			// larger than the peer's MaxMessageSize), concurrent with the ordinary requests of this client
+			big := make([]byte, 3<<20)
+			for f := 0; f < 2; f++ {
+				wg.Add(1)
+				go func(c *opcua.Client, f int) {
+					defer wg.Done()
+					dead, kill := context.WithCancel(ctx)
+					kill()
+					for time.Now().Before(stop) {
+						var err error
+						if f == 0 {
+							_, _, err = readInt(dead, c, ts.Nodes[0])
+						} else {
+							_, err = c.Write(ctx, &ua.WriteRequest{NodesToWrite: []*ua.WriteValue{{NodeID: ts.Nodes[2], AttributeID: ua.AttributeIDValue,
+								Value: &ua.DataValue{EncodingMask: ua.DataValueValue, Value: ua.MustVariant(big)}}}})
+						}
+						mu.Lock()
+						if err != nil {
+							refused++
+						} else {
+							unexpectedOK++
+						}
+						mu.Unlock()
+						time.Sleep(2 * time.Millisecond)
+					}
+				}(c, f)
+			}
+		}
 		for w := 0; w < 3; w++ {
 			wg.Add(1)
 			wr := rng.New(r.U64())
@@ -101,6 +132,7 @@ func c36renew(seed uint64, seconds int) {
 	wg.Wait()
 	mu.Lock()
 	out["ok_ops"], out["failed_ops"], out["notifications"] = okOps, failOps, notifs
+	out["refused_before_send"], out["oversized_or_cancelled_accepted"] = refused, unexpectedOK
 	mu.Unlock()
 }
 
